@@ -38,10 +38,12 @@ namespace gtry {
 	}
 
 	Bit gt(const SInt& lhs, const SInt& rhs) {
-		return (rhs - lhs).sign();
+		return lt(rhs, lhs);
 	}
 	Bit lt(const SInt& lhs, const SInt& rhs) {
-		return (lhs - rhs).sign();
+		// The difference needs one more bit than the operands, otherwise it overflows (e.g. 3 - (-7) at 4 bit) and the sign is wrong.
+		const BitWidth w = std::max(lhs.width(), rhs.width()) + 1_b;
+		return (sext(lhs, w) - sext(rhs, w)).sign();
 	}
 	Bit geq(const SInt& lhs, const SInt& rhs) {
 		return !lt(lhs, rhs);
